@@ -209,3 +209,131 @@ def parse_error_site(e: BaseException) -> str:
         if code.co_name not in skip:
             return getattr(code, "co_qualname", code.co_name)
     return "?"
+
+
+# --------------------------------------------------------------------------- one round-trip case
+def _raw_canon(m):
+    """Canonical form WITHOUT the two normalisations and with name hints (decides whether the second print must
+    be textually identical or only a fixpoint)."""
+    return resolve_resources(canon_ir(m, with_hints=False, normalise=False), dict(_blob_table()))
+
+
+def roundtrip(m, ctx, generic: bool, *, reference=None, check_clone=True, printer_cls=None, printer_kw=None):
+    """Run the print -> parse -> compare cycle on a verified module.
+
+    Returns {"symptoms": [ {symptom, ...detail} ], "t1": text or None, "m2": reparsed module or None,
+             "canon": canonical form of m, "fixpoint_only": bool}.
+    `reference` (a canonical form) replaces canon(m) as the expected value (C05 compares the custom round trip
+    with the generic round trip when that one is itself lossy)."""
+    from xdsl.printer import Printer
+    from xdsl.utils.exceptions import ParseError
+    pc = printer_cls or Printer
+    kw = dict(printer_kw or {})
+
+    def pr(mod, c):
+        s = StringIO()
+        p = pc(stream=s, print_generic_format=generic, **kw)
+        p.print_op(mod)
+        p.print_metadata(c.loaded_dialects)
+        return s.getvalue()
+
+    out = {"symptoms": [], "t1": None, "m2": None, "canon": None, "fixpoint_only": False}
+    S = out["symptoms"]
+    tab0 = dict(_blob_table())
+    c0 = resolve_resources(canon_ir(m), tab0)
+    out["canon"] = c0
+    try:
+        t1 = pr(m, ctx)
+    except Exception as e:  # noqa: BLE001 - the printer is the code under test
+        S.append({"symptom": "print-crash", "exc": type(e).__name__, "site": exc_site(e), "msg": str(e)[:200]})
+        return out
+    out["t1"] = t1
+    t1b = pr(m, ctx)
+    if t1b != t1:
+        S.append({"symptom": "print-nondeterministic", "detail": _first_text_diff(t1, t1b)})
+    if check_clone:
+        try:
+            mc = m.clone()
+            tc = pr(mc, ctx)
+        except Exception as e:  # noqa: BLE001
+            S.append({"symptom": "clone-print-crash", "exc": type(e).__name__, "site": exc_site(e), "msg": str(e)[:200]})
+        else:
+            if tc != t1:
+                S.append({"symptom": "clone-print-differs", "detail": _first_text_diff(t1, tc)})
+    try:
+        ctx2, m2 = parse_fresh(t1)
+    except ParseError as e:
+        S.append({"symptom": "reparse-fail", "site": parse_error_site(e), "msg": _perr(e), "where": _perr_where(e, t1)})
+        _restore(tab0)
+        return out
+    except Exception as e:  # noqa: BLE001
+        S.append({"symptom": "reparse-crash", "exc": type(e).__name__, "site": exc_site(e), "msg": str(e)[:200]})
+        _restore(tab0)
+        return out
+    out["m2"] = m2
+    tab1 = dict(_blob_table())
+    c1 = resolve_resources(canon_ir(m2), tab1)
+    expected = reference if reference is not None else c0
+    if c1 != expected:
+        d = first_op_diff(m, m2, tab0, tab1) or {"op": "?", "component": "unattributed", "detail": "canon differs"}
+        d["symptom"] = "canon-differs"
+        S.append(d)
+    else:
+        try:
+            m2.verify()
+        except Exception as e:  # noqa: BLE001
+            S.append({"symptom": "reparsed-ir-does-not-verify", "msg": str(e)[:200]})
+        t2 = pr(m2, ctx2)
+        if t2 != t1:
+            raw0 = resolve_resources(canon_ir(m, normalise=False), tab0)
+            raw1 = resolve_resources(canon_ir(m2, normalise=False), tab1)
+            if raw0 == raw1:
+                S.append({"symptom": "reprint-differs", "detail": _first_text_diff(t1, t2)})
+            else:
+                # m and m2 differ only by the two stated normalisations: require the fixpoint instead
+                out["fixpoint_only"] = True
+                try:
+                    ctx3, m3 = parse_fresh(t2)
+                    t3 = pr(m3, ctx3)
+                except Exception as e:  # noqa: BLE001
+                    S.append({"symptom": "reprint-not-reparseable", "exc": type(e).__name__, "msg": str(e)[-200:]})
+                else:
+                    if t3 != t2:
+                        S.append({"symptom": "reprint-differs", "detail": _first_text_diff(t2, t3), "fixpoint": True})
+    _restore(tab0)
+    return out
+
+
+def _restore(tab):
+    t = _blob_table()
+    t.clear()
+    t.update(tab)
+
+
+def _first_text_diff(a: str, b: str):
+    la, lb = a.splitlines(), b.splitlines()
+    for i, (x, y) in enumerate(zip(la, lb)):
+        if x != y:
+            return {"line": i + 1, "a": x.strip()[:300], "b": y.strip()[:300]}
+    return {"line": min(len(la), len(lb)) + 1, "a": f"<{len(la)} lines>", "b": f"<{len(lb)} lines>"}
+
+
+def _perr(e) -> str:
+    msg = getattr(e, "msg", None)
+    if isinstance(msg, str):
+        return msg[:200]
+    lines = [l.strip() for l in str(e).strip().splitlines() if l.strip()]
+    return (lines[-1] if lines else "")[:200]
+
+
+def _perr_where(e, text):
+    sp = getattr(e, "span", None)
+    if sp is None:
+        return None
+    try:
+        start = sp.start
+        ls = text.rfind("\n", 0, start) + 1
+        le = text.find("\n", start)
+        return {"pos": start, "line": text[ls:le if le >= 0 else len(text)].strip()[:300], "at": text[start:start + 12]}
+    except Exception:  # noqa: BLE001 - witness only
+        return None
